@@ -337,6 +337,10 @@ func (se *SessionExecutor) preBuildUnshardPlan(reqCtx *util.RequestContext, db s
 	}
 
 	// 2. check sql, if all tables in sql are unshard, return unshard plan
+	// a sharded table named anywhere in the statement needs the full analysis
+	if plan.MentionsShardTable(tokens, rt) {
+		return nil, false
+	}
 	ruleDB := db
 	isUnshardPlan := true
 	tokenId, ok := mysql.ParseTokenMap[strings.ToLower(tokens[0])]
